@@ -217,6 +217,49 @@ theorem comparison_accepts_dimensionless (C : Ctx K) (hs : UeqSound C.ueq) (f : 
       exact absurd (h.trans h1.symm) hd
   simp [hz, h0, h1]
 
+/-- a list of quantities whose items do not all have the first item's dimension is refused by the
+    coercion (`IterableUnitCoercionError`), so the call raises before anything else happens -/
+theorem coerce_refuses_mixed_list (ueq : UnitV K → UnitV K → Bool) (hs : UeqSound ueq)
+    (u : UnitR K) (rest : List (Option (UnitR K))) (d : Data)
+    (hall : ∀ o ∈ rest, o ≠ none) (v : UnitR K) (hv : some v ∈ rest) (hd : v.v.dim ≠ u.v.dim) :
+    coerce ueq (.seq (some u :: rest) d) = .error .IterableUnitCoercionError := by
+  have hloop := coerceItems_refuses u (some u :: rest)
+    (by intro o ho; cases ho with
+        | head => simp
+        | tail _ h => exact hall o h)
+    ⟨v, List.mem_cons_of_mem _ hv, hd⟩
+  simp only [coerce, List.head?_cons, hloop]
+  split
+  · rename_i e heq
+    split at heq
+    · cases heq; rfl
+    · cases heq
+  · rename_i heq
+    split at heq
+    · cases heq
+    rename_i hn
+    exfalso
+    apply hn
+    rw [List.any_eq_true]
+    refine ⟨some v, List.mem_cons_of_mem _ hv, ?_⟩
+    cases h : ueq u.v v.v with
+    | false => simp [h]
+    | true => exact absurd (hs _ _ h).symm hd
+
+/-- `reduce` / `accumulate` of a ufunc whose rule preserves or passes the unit through keep the
+    operand's unit (the code routes them through the one-input branch) -/
+theorem reduce_accumulate_keep_unit (C : Ctx K) (c : Call K) (cls : Cls) (u : UnitR K) (d : Data)
+    (rule : Rule) (hin : c.inputs = [.unyt cls u d]) (hk : c.kernelErr = none) (ho : c.out = .none)
+    (hr : C.T.ruleOf c.ufunc = some rule) (hrule : rule = .preserve ∨ rule = .passthrough)
+    (hnt : C.T.trig.contains c.ufunc = false)
+    (hmd : (c.ufunc == C.T.multiplyName || c.ufunc == C.T.divideName) = false) :
+    ∃ o, (dispatch C c).result = .ok o ∧ o.unit = some u.v ∧ (dispatch C c).effects = [] := by
+  have hnt' : ¬ c.ufunc ∈ C.T.trig := by simpa using hnt
+  have hmd' : ¬ (c.ufunc = C.T.multiplyName ∨ c.ufunc = C.T.divideName) := by simpa using hmd
+  rcases hrule with h | h <;> subst h <;>
+    simp [dispatch, hin, unaryPath, hk, ho, hr, hnt', hmd', applyRule1, wrapUp, wrapClassFails,
+      finishOut, kernelWrites, prepOut]
+
 /-- keyword operands that the dispatcher forwards to NumPy (`initial=`, `where=`) cannot
     influence the outcome: this is the formal content of the `reduce(initial=…)` finding -/
 theorem dispatch_ignores_keyword_operands (C : Ctx K) (c : Call K) (extra : List (String × Operand K)) :
@@ -259,6 +302,10 @@ def intInplaceMismatch : Call Rat :=
 def reduceWithInitial : Call Rat :=
   { ufunc := "add", method := .reduce, inputs := [.unyt .array metre arr3],
     extra := [("initial", .unyt .quantity second {})] }
+
+/-- `np.add.reduce(unyt_array([1.,2.,3.], 'm'))` -/
+def plainReduce : Call Rat :=
+  { ufunc := "add", method := .reduce, inputs := [.unyt .array metre arr3] }
 
 /-- `unyt_array([1.,2.,3.], 'm') + unyt_array([1.,2.,3.], 's')` — the plain refusal -/
 def plainMismatch : Call Rat :=
@@ -305,6 +352,34 @@ theorem C01_dispatch_counterexample : ¬ C01_dispatch_full Rat := by
   have hr := zero_unyt_operand_counterexample
   simp only [Run.returned, this.1] at hr
   exact absurd hr (by decide)
+
+open Witness in
+/-- non-vacuity of `commensurate_spec` / `eq_ne_mismatch_answers`: metres == seconds is all-False -/
+example : commensurate ctx .comparison "equal" (.unyt .array metre arr3) (.unyt .array second arr3) metre second
+    = .early false := by
+  rw [commensurate_spec ctx ctx_sound .comparison "equal" _ _ metre second (by decide)]
+  rw [if_neg (by decide +kernel), if_neg (by decide +kernel), if_neg (by decide +kernel),
+    if_neg (by decide +kernel), if_pos (by decide +kernel)]
+
+open Witness in
+example : ∃ o, (dispatch ctx { ufunc := "not_equal", inputs := [.unyt .array metre arr3, .unyt .array second arr3] }).result = .ok o
+    ∧ o.early = some true ∧ o.unit = none :=
+  eq_ne_mismatch_answers ctx ctx_sound _ (.unyt .array metre arr3) (.unyt .array second arr3) (some metre) (some second) true
+    rfl (by decide +kernel) (by decide +kernel) (by decide +kernel) (by decide +kernel) rfl rfl (by decide) (by decide)
+    (by decide) (by decide) (by intro os h; cases h) (Or.inl rfl)
+
+open Witness in
+/-- non-vacuity of `coerce_refuses_mixed_list`: `[1 m, 1 s]` -/
+example : coerce ctx.ueq (.seq [some metre, some second] arr3) = .error .IterableUnitCoercionError :=
+  coerce_refuses_mixed_list ctx.ueq ctx_sound metre [some second] arr3
+    (by intro o ho; simp at ho; simp [ho]) second (by simp) (by decide)
+
+open Witness in
+/-- non-vacuity of `reduce_accumulate_keep_unit`: `np.add.reduce(x_m)` -/
+example : ∃ o, (dispatch ctx plainReduce).result = .ok o
+    ∧ o.unit = some metre.v ∧ (dispatch ctx plainReduce).effects = [] :=
+  reduce_accumulate_keep_unit ctx plainReduce .array metre arr3 .preserve rfl rfl rfl (by decide +kernel) (Or.inl rfl)
+    (by decide +kernel) (by decide +kernel)
 
 /-! ## table obligations (kernel-decided over the regenerated tables) -/
 
@@ -497,6 +572,19 @@ theorem validateV2_numbers_unchecked (ueq : UnitV K → UnitV K → Bool) (ref :
 
 end
 
+/-- non-vacuity: `[x_m, [y_m, z_s]]` meets the hypotheses of `validate_refuses_mismatch` -/
+example : validateConsistency (K := Rat) UnitV.eqv
+    [.arr (some Witness.metre.v), .seq [.arr (some Witness.metre.v), .arr (some Witness.second.v)]]
+    = .error .UnitInconsistencyError :=
+  validate_refuses_mismatch UnitV.eqv eqv_sound _ Witness.metre.v Witness.second.v
+    (by simp [unitsOfObjs, unitsOfObj]) (by simp [unitsOfObjs, unitsOfObj]) (by decide)
+
+/-- non-vacuity: a seconds array against a metres reference -/
+example : validateV2 (K := Rat) UnitV.eqv Witness.metre.v [.arr (some Witness.second.v)]
+    = .error .UnitInconsistencyError :=
+  validateV2_refuses_mismatch_partial UnitV.eqv eqv_sound _ _ Witness.second.v
+    (by simp [unitsOfObjs, unitsOfObj]) (by decide) (by rfl)
+
 /-- a bare non-zero number is accepted against metres -/
 theorem C01_validateV2_counterexample : ¬ C01_validateV2_full Rat := by
   intro h
@@ -524,6 +612,14 @@ theorem comp_helper_refuses_mismatch (pre : Prefixes K) (lut : Lut K) (ueq : Uni
 theorem to_raises_on_mismatch (pre : Prefixes K) (lut : Lut K) (u target : UnitV K)
     (hd : u.dim ≠ target.dim) : toCheck pre lut u target = .error .UnitConversionError := by
   simp [toCheck, getConversionFactor, dim_bne_of_ne hd]
+
+/-- non-vacuity: metres against seconds -/
+example : arrayCompHelper (K := Rat) [] [] UnitV.eqv (some Witness.metre.v) (some Witness.second.v)
+    = .error .UnitConversionError :=
+  comp_helper_refuses_mismatch [] [] UnitV.eqv eqv_sound _ _ (by decide) (by decide) (by decide)
+
+example : toCheck (K := Rat) [] [] Witness.metre.v Witness.second.v = .error .UnitConversionError :=
+  to_raises_on_mismatch [] [] _ _ (by decide)
 
 /-- `__setitem__` at full strength: a value whose unit has another dimension is refused -/
 def C01_setitem_full (K : Type) [Add K] [Sub K] [Mul K] [Div K] [OfNat K 0] [OfNat K 1] [BEq K] : Prop :=
